@@ -30,11 +30,14 @@ impl RootedValue {
 pub struct VmError { _p: () }
 #[verifier::external_body]
 pub struct ThreadPtr { _p: () }
+// C13: `v` lives in a heap that thread `t` may point into (its own or an ancestor's): what Thread::deep_clone_value
+// establishes for its RECEIVER (`self`); proved for the real function in the C13 clone unit, assumed here
+pub uninterp spec fn holdable_by(v: Value, t: ThreadPtr) -> bool;
 impl ThreadPtr {
     // ASSUMED contract of Thread::deep_clone_value: a structurally equal copy in the receiving heap, or an error
     #[verifier::external_body]
     pub fn deep_clone_value(&self, owner: &ThreadPtr, value: &Value) -> (r: Result<RootedValue, VmError>)
-        ensures r is Ok ==> same_value(r->Ok_0.v, *value)
+        ensures r is Ok ==> same_value(r->Ok_0.v, *value) && holdable_by(r->Ok_0.v, *self)
     { unimplemented!() }
 }
 // api::IO: same variants
@@ -96,3 +99,7 @@ pub proof fn lemma_fifo(ops: Seq<Op>)
         }
     }
 }
+
+// std, documented: Result::unwrap_or_default returns the Ok value, or T::default() for an Err
+pub assume_specification<T: core::default::Default, E> [core::result::Result::<T, E>::unwrap_or_default] (r0: core::result::Result<T, E>) -> (r: T)
+    ensures r0 is Ok ==> r == r0->Ok_0;
